@@ -838,6 +838,11 @@ func createAssociationFromConfigWithTsn(cfg *Config, tsn uint32) *Association {
 	}
 
 	rtoMax := cfg.RTOMax
+	if rtoMax != 0 && !(rtoMax >= rtoMin) {
+		// RTO.Max bounds the back-off from above; a value below RTO.Min (or NaN) would
+		// pull every retransmission timeout under the protocol minimum, down to zero.
+		rtoMax = rtoMin
+	}
 	interleaving := cfg.interleaving
 	if interleaving == nil {
 		interleaving = &interleavingSettings{}
